@@ -173,3 +173,26 @@ def c10_abort_in_write_data_phase(v, case):
     write strobe without data."""
     return bool(v.get("path") in ("equal", "wide") and (v.get("aborts_in_run") or 0) > 0 and (v.get("memory_side_underruns") or 0) > 0
                 and v.get("kind") in ("no-ack-within-bound", "wdata-underrun", "stored-byte-outside-model-set"))
+
+
+# ------------------------------------------------------------------------------------------------ C11
+_C11_SYMPTOMS = ("final-store-differs-from-model", "read-data-mismatch", "write-beat-not-accepted-within-bound",
+                 "read-command-not-accepted-within-bound", "read-data-not-complete-within-bound", "readdatavalid-without-pending-read",
+                 "wdata-underrun")
+
+
+def c11_write_burst_left_on_master_gap(v, case):
+    """LiteDRAMAvalonMM2Native BURST_WRITE: when the master deasserts `write` between two beats of a burst (legal Avalon-MM)
+    and the FIFOs drain, the FSM returns to START although beats are still owed; the remaining beats are taken as a new
+    access at whatever address / burstcount is on the bus.  Accepts only witnesses of runs in which the master actually
+    inserted an idle gap inside a write burst."""
+    return bool((v.get("mid_burst_gaps_in_run") or 0) > 0 and v.get("kind") in _C11_SYMPTOMS)
+
+
+def c11_upconverted_burst_never_flushed(v, case):
+    """Avalon bus narrower than the port: burst beats go through the native up-converter without cmd.last / flush, so a
+    burst that does not start and end on a wide-word boundary leaves a partial wide word (write) or the last chunks of a
+    read waiting in the converter for ever; the bridge then never finishes the burst or accepts the next access.
+    Accepts only witnesses on the up-converting path of runs that contained such an unaligned burst."""
+    return bool(v.get("path") == "up" and (v.get("bursts_not_aligned_to_wide_word_in_run") or 0) > 0
+                and v.get("kind") in _C11_SYMPTOMS)
